@@ -63,12 +63,31 @@ Check (C07_history_fields : forall c h i,
   | _, _ => False
   end).
 Check (C07_vars_free : forall t x, In x (vars t) <-> free x (emb t)).
-Check (C07_cfg_real_faithful : faithful cfg_real).
+Check (C07_cfg_fixed_faithful : faithful cfg_fixed).
 Check (C07_cfg_partA_faithful : faithful cfg_partA).
-Check (C07_literal_deps_agree : forall (l : literal) k d t x,
-  In (k, d) l -> fbody d = Some t ->
-  exists ds, In (k, ds) (deps_stat false (map (fun kd => (fst kd, emb_field (snd kd))) l) []) /\
-             (In x ds <-> In x (filter (fun y => Lang.mem y (lit_names l)) (c_an cfg_partA t)))).
+Check (C07_literal_deps_agree_stat : forall (l : literal) k d t x,
+  In (k, d) l -> fdyn d = false -> fbody d = Some t ->
+  exists ds, In (k, ds) (deps_stat false (emb_stat l) []) /\
+             (In x ds <-> In x (filter (fun y => Lang.mem y (lit_scope l)) (c_an cfg_partA t)))).
+Check (C07_literal_deps_agree_dyn : forall (l : literal) k d t x,
+  In (k, d) l -> fdyn d = true -> fbody d = Some t ->
+  exists ds, In ds (deps_dyn false (emb_stat l) [] (emb_dyn l)) /\
+             (In x ds <-> In x (filter (fun y => Lang.mem y (lit_scope l)) (c_an cfg_partA t)))).
+Check (C07_static_history_same : forall b c h,
+  hist_static h -> forall sd, irun_from (set_wrap b c) sd h = irun_from c sd h).
+Check (C07_history_fields_current : forall h i,
+  hist_static h -> lits_ok h ->
+  let (st, slots) := irun cfg_current h in
+  match nth_error slots i, nth_error (srun h) i with
+  | Some (Rid r), Some (Some R) => forall fuel k, ifield fuel st r k = sfield fuel R k
+  | Some BadRef, Some None => True
+  | None, None => True
+  | _, _ => False
+  end).
+Check (C07_dynamic_field_indirection_refuted :
+  exists h i k, (forall l, In (SLit l) h -> NoDup (lit_names l)) /\
+                field_of cfg_current h i k = Ok 11 /\ spec_field_of h i k = Ok 6 /\
+                field_of cfg_fixed h i k = Ok 6).
 Check (C07_revert_keeps_cache_panics :
   exists h, (forall l, In (SLit l) h -> NoDup (lit_names l)) /\
             exists i, nth_error (snd (irun cfg_share_assert h)) i = Some Panicked).
@@ -78,7 +97,7 @@ Check (C07_revert_keeps_cache_overwrite_refuted :
   exists h i k, field_of cfg_share_overwrite h i k = Ok 6 /\ spec_field_of h i k = Ok 2).
 Check (C07_inplace_revert_refuted :
   exists h i k, field_of cfg_inplace h i k = Ok 6 /\ spec_field_of h i k = Ok 2
-                /\ field_of cfg_real h i k = Ok 2).
+                /\ field_of cfg_fixed h i k = Ok 2).
 Check (C07_deps_incomplete_refuted :
   exists h i k, field_of cfg_incomplete h i k = Err UnboundId /\ spec_field_of h i k = Ok 1).
 Check (C07_deps_incomplete_after_override_refuted :
